@@ -111,11 +111,14 @@ def fan_transcript(ch, r):
         else:
             log.note('recv', 'headers', sid, ep.recv(wire.headers(sid, enc.encode(req))))
     total = 0
+    untouched = []
     for sid in sids:
         n = ch.pick([0, 100, 3000, 4000, 4500])
         if total + n > 60000:
             n = 0
         total += n
+        if not n:
+            untouched.append(sid)
         if n:
             log.note('recv', 'data', sid, ep.recv(wire.data(sid, b'd' * n)))
             a = ch.pick([n, n, n // 2, 0])
@@ -128,6 +131,17 @@ def fan_transcript(ch, r):
         new[6] = ch.pick([100, 65536])
     log.note('call', 'update_settings', new, ep.call('update_settings', dict(new)))
     log.note('recv', 'settings-ack', None, ep.recv(wire.settings(ack=True)))
+    if new[4] in (2000, 6000):
+        # streams that have received nothing yet now have a small window: more than half of it is used and
+        # acknowledged at once, which makes a stream-level WINDOW_UPDATE due while the connection's is not
+        for sid in untouched[:3]:
+            n2 = new[4] // 2 + 10
+            if total + n2 > 60000:
+                break
+            total += n2
+            log.note('recv', 'data', sid, ep.recv(wire.data(sid, b'e' * n2)))
+            log.note('call', 'acknowledge_received_data', sid, ep.call('acknowledge_received_data', n2, sid))
+        r.labels.add('fan:stream-window-update-without-connection-update')
     if default_ctor and ch.bool():
         ep.c.config.header_encoding = ch.pick(['utf-8', 'latin-1'])
         r.labels.add('fan:own-config-changed')
